@@ -7,6 +7,8 @@ import LexprModel.Parse
 import LexprModel.Print
 import LexprModel.ListOps
 import LexprModel.Generated.Tables
+import LexprModel.SerdeDrv
+import LexprModel.Macro
 
 open Lexpr Lexpr.Parse
 
@@ -470,6 +472,82 @@ def execPp (t : List String) : String :=
     | r => "rej " ++ encItem (resItem r)
   | _ => "bad-op"
 
+def splitSep (t : List String) : List String × List String :=
+  (t.takeWhile (· != ";;"), (t.dropWhile (· != ";;")).drop 1)
+
+def execSer (t : List String) : String :=
+  let (tyT, dataT) := splitSep (t.drop 2)
+  let (ty, _) := SerdeDrv.decTy tyT
+  let (d, _) := SerdeDrv.decData ty dataT
+  match Serde.ser ty d with
+  | some v => "ok " ++ encValue v
+  | none => "err"
+
+def execDe (t : List String) : String :=
+  let (tyT, valT) := splitSep (t.drop 2)
+  let (ty, _) := SerdeDrv.decTy tyT
+  let (v, _, _) := decValue valT []
+  match Serde.de ty v with
+  | .ok d => "ok " ++ " ".intercalate (SerdeDrv.encData (SerdeDrv.canon ty d))
+  | .dataErr => "err Data"
+  | .panic => "panic"
+
+/-- token encoding: p<code><j|a>, i<hex>, li<n>, lf<sig>e<exp>, ls<hexsrc>/<hexval>, lc<hex>, g<n> followed by n token trees -/
+partial def decToks (n : Nat) (t : List String) : List Macro.Tok × List String :=
+  match n with
+  | 0 => ([], t)
+  | n + 1 =>
+    match t with
+    | [] => ([], [])
+    | k :: r =>
+      let (tok, r) : Macro.Tok × List String :=
+        match c0 k with
+        | 'p' =>
+          let body := sdrop k 1
+          let sp := if body.toList.getLast? == some 'j' then Macro.Spacing.joint else Macro.Spacing.alone
+          (.punct (UInt8.ofNat (String.ofList body.toList.dropLast).toNat!) sp, r)
+        | 'i' => (.ident (unhex (sdrop k 1)), r)
+        | 'l' =>
+          let kind := (sdrop k 1 |> c0)
+          let body := sdrop k 2
+          if kind == 'i' then (.lit (.int body.toNat!), r)
+          else if kind == 'f' then
+            match body.splitOn "e" with
+            | [a, b] => (.lit (.float a.toNat! b.toInt!), r)
+            | _ => (.lit (.int 0), r)
+          else if kind == 's' then
+            match body.splitOn "/" with
+            | [a, b] => (.lit (.str (unhex a) (unhex b)), r)
+            | _ => (.lit (.str [] []), r)
+          else (.lit (.char (hexNat body)), r)
+        | 'g' =>
+          let (ts, r) := decToks (sdrop k 1).toNat! r
+          (.group true ts, r)
+        | _ => (.ident [], r)
+      let (rest, r) := decToks n r
+      (tok :: rest, r)
+
+/-- the fixed environment of unquoted identifiers used by the generated invocations -/
+def macroEnv : Macro.Tok → Value
+  | .group _ (t :: _) => macroEnv t
+  | .ident s =>
+    if s == asc "u0" then .number (.pos 42)
+    else if s == asc "u1" then .string (asc "str")
+    else if s == asc "u2" then .number (.flt (F64.rnDec 15 (-1)))
+    else if s == asc "u3" then .symbol (asc "s")
+    else if s == asc "u4" then .bool true
+    else if s == asc "u5" then .char 99
+    else if s == asc "u6" then Value.list [.number (.pos 1), .number (.pos 2)]
+    else .null
+  | _ => .nil
+
+def execMacro (t : List String) : String :=
+  let n := (t.getD 1 "0").toNat!
+  let (ts, _) := decToks n (t.drop 2)
+  match Macro.expand macroEnv ts with
+  | some v => encValue v
+  | none => "macro-error"
+
 def exec (line : String) : String :=
   let t := (line.trimAscii.toString.splitOn " ").filter (· != "")
   match t.head? with
@@ -483,6 +561,9 @@ def exec (line : String) : String :=
   | some "rt" => execRt t
   | some "prefix" => execPrefix t
   | some "pp" => execPp t
+  | some "ser" => execSer t
+  | some "macro" => execMacro t
+  | some "de" => execDe t
   | some op => "unknown-op " ++ op
   | none => ""
 
